@@ -93,6 +93,7 @@ class Unit:
         self.loops = {}
         self.loopstarts = {}
         self.afters = []
+        self.afterloops = {}
         self.ats = []
         self.params_drop, self.params_add = [], []
         self.header_lines = []
@@ -448,6 +449,11 @@ class Generator:
             if src[l['body'][0]:l['body'][0] + 1] != b'{':
                 raise GenError(f'unsupported: loop #{k} body of {u.fnpath} is not a block')
             add_edit(l['body'][0] + 1, l['body'][0] + 1, ('SPLICE', [(tl, '\n' + line) if i == 0 else (tl, line) for i, (tl, line) in enumerate(text)]), 'loopstart')
+        for k, text in u.afterloops.items():
+            # proof text spliced right after loop #k (anchored to the loop, not to the statement that follows it)
+            if k >= len(frag_loops):
+                raise GenError(f'lost-anchor: loop #{k} in fragment of {u.fnpath} (has {len(frag_loops)})')
+            add_edit(frag_loops[k]['span'][1], frag_loops[k]['span'][1], ('SPLICE', [(tl, '\n' + line) if i == 0 else (tl, line) for i, (tl, line) in enumerate(text)]), 'afterloop')
         for (prefix, k, text) in u.afters:
             # proof text spliced right AFTER a statement (for facts about what the statement just did)
             pre = normtok(prefix)
@@ -631,6 +637,10 @@ class Generator:
                     lst = []
                     cur.ats.append((args[1], k, lst))
                     pending = lst
+                elif d == 'afterloop':
+                    k = int(args[1])
+                    cur.afterloops[k] = []
+                    pending = cur.afterloops[k]
                 elif d == 'after':
                     k = int(args[2][1:]) if len(args) > 2 else 0
                     lst = []
